@@ -278,8 +278,8 @@ fn tamper(raw: &DnsResponse, query: &Query, m: &str) -> Option<Result<DnsRespons
             msg.authorities.push(Record::from_rdata(soa.name.clone(), soa.ttl, RData::DNSSEC(DNSSECRData::NSEC(forged))));
             msg.metadata.response_code = ResponseCode::NXDomain;
         }
-        // an (unsigned) NSEC3 record owned by the apex beside the genuine NSECs: a response with
-        // both kinds of proof is Bogus whatever they say
+        // an (unsigned) NSEC3 record owned by the apex beside the genuine NSECs: it must not make a
+        // false statement acceptable (it is not authenticated, so it takes no part in the proof)
         "add-nsec3" => {
             let soa = msg.authorities.iter().find(|rr| rr.record_type() == RecordType::SOA)?.clone();
             if !msg.authorities.iter().any(|rr| rr.record_type() == RecordType::NSEC) {
@@ -373,24 +373,26 @@ pub fn exec_tamper(t: &[&str], line: &str, rec: &mut Recorder) {
                 Err(_) => None,
             };
             let raw_has_nsec = raw.authorities.iter().any(|rr| rr.record_type() == RecordType::NSEC);
-            // an unsigned NSEC that sits at the owner name of a signed RRset of the authority section
-            // (the SOA): `verify_response` takes it for authenticated
-            let unsigned_nsec_beside_signed = match &prepared {
+            // does an NSEC with its own RRSIG (an authenticated proof) survive the mutation?
+            let signed_nsec_left = match &prepared {
                 Ok(r) => r.authorities.iter().any(|n| {
                     n.record_type() == RecordType::NSEC
-                        && !r.authorities.iter().any(|s| s.name == n.name && is_sig_of(s, RecordType::NSEC))
-                        && r.authorities.iter().any(|s| s.name == n.name && s.record_type() == RecordType::RRSIG)
+                        && r.authorities.iter().any(|s| s.name == n.name && is_sig_of(s, RecordType::NSEC))
                 }),
-                Err(_) => false,
+                Err(e) => e.authorities.as_ref().is_some_and(|a| {
+                    a.iter().any(|n| {
+                        n.record_type() == RecordType::NSEC && a.iter().any(|s| s.name == n.name && is_sig_of(s, RecordType::NSEC))
+                    })
+                }),
             };
             let verdict = validate_prepared(z, &query, prepared).and_then(|r| {
                 // a response with answers is accepted only if its answer records are Secure
                 if r.answers.iter().all(|rr| rr.proof == Proof::Secure) { Ok(r) } else { Err("answer records not Secure".into()) }
             });
-            Some((verdict, base.validated.is_ok(), shape, (raw_has_nsec, unsigned_nsec_beside_signed), truth(z, &q, qtype), vn))
+            Some((verdict, base.validated.is_ok(), shape, (raw_has_nsec, signed_nsec_left), truth(z, &q, qtype), vn))
         })
     });
-    let (verdict, base_ok, (rc, no_answers, _has_nsec), (raw_has_nsec, unsigned_beside), tr, vn) = match res {
+    let (verdict, base_ok, (rc, no_answers, _has_nsec), (raw_has_nsec, signed_nsec_left), tr, vn) = match res {
         Ok(Some(x)) => x,
         Ok(None) => {
             rec.stat("tamper.no-change");
@@ -443,8 +445,14 @@ pub fn exec_tamper(t: &[&str], line: &str, rec: &mut Recorder) {
         if bad.is_none() && !cut && *m == "strip-answer" {
             bad = Some("accepted although the answer RRset was removed".into());
         }
-        if bad.is_none() && *m == "add-nsec3" {
-            bad = Some("accepted although the response carries both NSEC and NSEC3 records".into());
+        // add-nsec3: the added NSEC3 is UNSIGNED.  Until /repo cc13292 the validator used it all the same
+        // (selected because the signed SOA has the same owner) and then refused the response for
+        // carrying both kinds of proof; since cc13292 an unauthenticated NSEC3 takes no part in a proof,
+        // and the response is judged by its genuine NSEC proof.  Only the truth rule above applies: an
+        // earlier version of this oracle demanded a rejection here, which is more than the property
+        // states (it was derived from the code's behaviour, not from RFC 4035).
+        if *m == "add-nsec3" {
+            rec.stat("tamper.add-nsec3.accepted-on-the-genuine-nsec-proof");
         }
     }
     // (referrals are left out: delivered as an error they lose the sections that make them one)
@@ -456,15 +464,13 @@ pub fn exec_tamper(t: &[&str], line: &str, rec: &mut Recorder) {
         ));
     }
     if let Some(b) = bad {
-        // classes of the two open findings, computed from zone + query + mutation (through the
-        // server's response): an unsigned NSEC beside a signed RRset is taken for authenticated
-        // (H2); otherwise no NSEC reaches verify_nsec and the response is accepted because the
-        // anchored zone's own "no DS at my apex" answer marks it insecure (H1)
-        let cls = if *m == "as-error" {
-            ""
-        } else if unsigned_beside {
-            "unsigned-nsec-beside-signed-rrset-taken-as-authenticated"
-        } else if matches!(*m, "strip-nsec" | "strip-nsec-sig" | "empty" | "strip-answer" | "as-error-bare") {
+        // class of the open finding H1, computed from zone + query + mutation (through the server's
+        // response).  Its precondition: the zone's key is the trust anchor and the zone's own server
+        // answers `<zone> DS` (child side) — true of every zone of this run — and no authenticated
+        // NSEC is left in the response, so that nothing reaches verify_nsec and the verdict is the
+        // one of find_ds_records.  A wrong acceptance with an authenticated NSEC still present is
+        // not H1.
+        let cls = if *m != "as-error" && !signed_nsec_left {
             "proofless-response-accepted-child-side-ds-denial-marks-anchored-zone-insecure"
         } else {
             ""
@@ -473,6 +479,160 @@ pub fn exec_tamper(t: &[&str], line: &str, rec: &mut Recorder) {
     }
     if let Some(c) = vn {
         super::exec(&c.line(), rec);
+    }
+}
+
+/// routes queries like a resolver does: `<child> DS` and everything outside the child zone to the
+/// parent's server, the rest to the child's
+#[derive(Clone)]
+struct HierHandle {
+    parent: CatalogHandle,
+    child: Option<(Name, CatalogHandle)>,
+}
+
+impl DnsHandle for HierHandle {
+    type Response = Pin<Box<dyn Stream<Item = Result<DnsResponse, NetError>> + Send>>;
+    type Runtime = TokioRuntimeProvider;
+
+    fn send(&self, request: DnsRequest) -> Self::Response {
+        let to_child = self.child.as_ref().is_some_and(|(apex, _)| {
+            request.queries.first().is_some_and(|q| apex.zone_of(&q.name) && !(q.query_type == RecordType::DS && q.name == *apex))
+        });
+        match (&self.child, to_child) {
+            (Some((_, c)), true) => c.send(request),
+            _ => self.parent.send(request),
+        }
+    }
+}
+
+fn plain_zone(apex: &Name, kind: Option<NxProofKind>, records: &[(Name, RData)], sign: bool) -> Option<(Arc<Catalog>, Option<hickory_proto::dnssec::PublicKeyBuf>)> {
+    let mut h = InMemoryZoneHandler::<TokioRuntimeProvider>::empty(apex.clone(), ZoneType::Primary, AxfrPolicy::Deny, kind);
+    const SERIAL: u32 = 2024010100;
+    let ns = Name::from_ascii("ns.invalid.").unwrap();
+    h.upsert_mut(
+        Record::from_rdata(apex.clone(), 3600, RData::SOA(SOA::new(ns.clone(), Name::from_ascii("admin.invalid.").unwrap(), SERIAL, 3600, 300, 3600000, 3600))),
+        SERIAL,
+    );
+    h.upsert_mut(Record::from_rdata(apex.clone(), 3600, RData::NS(NS(ns))), SERIAL);
+    for (n, rd) in records {
+        h.upsert_mut(Record::from_rdata(n.clone(), 3600, rd.clone()), SERIAL);
+    }
+    let mut public = None;
+    if sign {
+        let key = Ed25519SigningKey::from_pkcs8(&Ed25519SigningKey::generate_pkcs8().ok()?).ok()?;
+        let pk = key.to_public_key().ok()?;
+        let key: Box<dyn SigningKey> = Box::new(key);
+        h.add_zone_signing_key_mut(DnssecSigner::new(DNSKEY::from_key(&pk), key, apex.clone(), Duration::from_secs(86400))).ok()?;
+        h.secure_zone_mut().ok()?;
+        public = Some(pk);
+    }
+    let mut catalog = Catalog::new();
+    catalog.upsert(apex.clone().into(), vec![Arc::new(h)]);
+    Some((Arc::new(catalog), public))
+}
+
+pub const H1_SCENARIOS: [&str; 6] = [
+    "optout-apex-closest-encloser",
+    "nsec3-parent-side",
+    "nsec-parent-side",
+    "child-side-nsec",
+    "child-side-nsec3",
+    "child-side-nsec3-salted",
+];
+
+/// `h1 <scenario>` — directed regression set around finding H1 (which DS denials may mark a zone
+/// insecure): an unsigned child below a signed parent must stay accepted (Insecure) whether the
+/// parent proves "no DS" with its parent-side NSEC, its parent-side NSEC3, or — opt-out — with its
+/// own apex NSEC3 as closest encloser; a signed zone that is its own trust anchor must not be
+/// marked insecure by its own (child-side) answer to `<zone> DS`, NSEC or NSEC3.
+pub fn exec_h1(t: &[&str], line: &str, rec: &mut Recorder) {
+    let ["h1", scenario] = t else {
+        rec.stat("skipped.unparsable-case");
+        return;
+    };
+    let n = |s: &str| Name::from_ascii(s).unwrap();
+    let nsec3 = |opt_out: bool, salt: &[u8], iterations: u16| {
+        Some(NxProofKind::Nsec3 { algorithm: Default::default(), salt: Arc::from(salt.to_vec()), iterations, opt_out })
+    };
+    let res = catch(|| -> Option<(bool, bool)> {
+        let mut opts = DnsRequestOptions::default();
+        opts.use_edns = true;
+        opts.edns_set_dnssec_ok = true;
+        opts.recursion_desired = false;
+        let parent_side = |kind: Option<NxProofKind>| -> Option<(bool, bool)> {
+            // p. signed (trust anchor) with the unsigned delegation u.p. and another name; u.p. unsigned
+            let p = n("p.");
+            let (pc, pk) = plain_zone(
+                &p,
+                kind,
+                &[(n("u.p."), RData::NS(NS(n("ns.invalid.")))), (n("zz.p."), RData::A(A::new(192, 0, 2, 9)))],
+                true,
+            )?;
+            let (cc, _) = plain_zone(&n("u.p."), None, &[(n("www.u.p."), RData::A(A::new(192, 0, 2, 8)))], false)?;
+            let mut anchors = TrustAnchors::empty();
+            anchors.insert(&pk?);
+            let h = HierHandle { parent: CatalogHandle { catalog: pc }, child: Some((n("u.p."), CatalogHandle { catalog: cc })) };
+            let secure = DnssecDnsHandle::with_trust_anchor(h, Arc::new(anchors));
+            let ok = RT.with(|rt| {
+                rt.block_on(async {
+                    let r = secure.send(DnsRequest::from_query(Query::new(n("www.u.p."), RecordType::A), opts)).next().await;
+                    matches!(r, Some(Ok(m)) if m.answers.iter().any(|rr| rr.record_type() == RecordType::A && rr.proof == Proof::Insecure))
+                })
+            });
+            Some((ok, true)) // expected: accepted, the answer marked Insecure
+        };
+        let child_side = |kind: Option<NxProofKind>| -> Option<(bool, bool)> {
+            // x. signed and its own trust anchor; a proofless NXDOMAIN for a name of the zone
+            let x = n("x.");
+            let (c, pk) = plain_zone(&x, kind, &[(n("a.x."), RData::A(A::new(192, 0, 2, 7)))], true)?;
+            let mut anchors = TrustAnchors::empty();
+            anchors.insert(&pk?);
+            let query = Query::new(n("b.x."), RecordType::A);
+            let mut msg = hickory_proto::op::Message::query();
+            msg.add_query(query.clone());
+            msg.metadata.response_code = ResponseCode::NXDomain;
+            let forged = DnsResponse::from_message(msg.into_response()).ok()?;
+            let h = TamperHandle { inner: CatalogHandle { catalog: c }, query: query.clone(), result: Arc::new(Ok(forged)) };
+            let secure = DnssecDnsHandle::with_trust_anchor(h, Arc::new(anchors));
+            let ok = RT.with(|rt| rt.block_on(async { matches!(secure.send(DnsRequest::from_query(query, opts)).next().await, Some(Ok(_))) }));
+            Some((ok, false)) // expected: rejected
+        };
+        match *scenario {
+            "optout-apex-closest-encloser" => parent_side(nsec3(true, &[], 0)),
+            "nsec3-parent-side" => parent_side(nsec3(false, &[], 0)),
+            "nsec-parent-side" => parent_side(Some(NxProofKind::Nsec)),
+            "child-side-nsec" => child_side(Some(NxProofKind::Nsec)),
+            "child-side-nsec3" => child_side(nsec3(false, &[], 0)),
+            "child-side-nsec3-salted" => child_side(nsec3(true, &[0xab, 0xcd], 3)),
+            _ => None,
+        }
+    });
+    match res {
+        Ok(Some((accepted, expected))) => {
+            rec.impl_only += 1;
+            let idx = rec.case(line.to_string(), "~".into());
+            rec.stat("op.h1");
+            rec.stat(&format!("h1.{scenario}.{}", if accepted { "accepted" } else { "rejected" }));
+            rec.nontrivial(idx);
+            if accepted != expected {
+                // a child-side denial marking the anchored zone insecure is finding H1
+                let cls = if !expected { "proofless-response-accepted-child-side-ds-denial-marks-anchored-zone-insecure" } else { "" };
+                rec.fail(
+                    idx,
+                    format!(
+                        "DS-denial scenario {scenario}: the response is {} but must be {}",
+                        if accepted { "accepted" } else { "rejected" },
+                        if expected { "accepted as Insecure (the parent proves that the delegation has no DS)" } else { "rejected (the zone is its own trust anchor; its own answer to '<zone> DS' says nothing about the delegation)" }
+                    ),
+                    cls,
+                );
+            }
+        }
+        Ok(None) => rec.stat("skipped.h1-not-built"),
+        Err(p) => {
+            let idx = rec.case(line.to_string(), format!("panic {p}"));
+            rec.fail(idx, format!("panic in the DS-denial scenario: {p}"), "");
+        }
     }
 }
 
@@ -717,6 +877,10 @@ fn zones(o: &Opts, r: &mut Rng) -> Vec<Vec<(Vec<Vec<u8>>, Vec<u16>)>> {
 }
 
 pub fn run(o: &Opts, rec: &mut Recorder) {
+    for sc in H1_SCENARIOS {
+        let line = format!("h1 {sc}");
+        exec_h1(&line.split_whitespace().collect::<Vec<_>>(), &line, rec);
+    }
     let mut r = Rng::new(o.seed ^ 0xe2e);
     let apex = Name::from_ascii("x.").unwrap();
     let alphabet: [&[u8]; 4] = [b"a", b"b", b"*", b"c"];
